@@ -6,7 +6,8 @@ floats, numeric strings, valid / malformed hex of every wrong length, literal op
 containers), positional and by name, too few and too many, sent as JSON bytes through aiorpcx's
 RSTransport into a real ElectrumX session on a populated index (incl. a 253-tx block so the
 merkle-cache path runs) with a second, subscribed client connected; the handshake requests
-also against a server configured with DROP_CLIENT.
+also against a server configured with DROP_CLIENT; every method also on sessions that never
+sent server.version and on sessions that negotiated protocol 1.4.
 Oracle: every request gets a reply that is a result or an error whose code is not INTERNAL_ERROR;
 a refused request leaves the session's subscriptions untouched and may add to the server caches
 only entries that equal a fresh read; after all the traffic the other client is told exactly
@@ -170,8 +171,8 @@ def run_case(case, res):
         for params in plist:
             if client is None or client.transport.closing:
                 client = s.connect(name='m')
-                if method != 'server.version':
-                    client.call('server.version', ['mal', '1.4.2'])
+                if method != 'server.version' and case.get('handshake', '1.4.2'):
+                    client.call('server.version', ['mal', case.get('handshake', '1.4.2')])
             before = snapshot(client.session, sm)
             text = json.dumps({'jsonrpc': '2.0', 'method': method, 'params': params, 'id': 7})
             n0 = len(client.messages)
@@ -214,7 +215,9 @@ def run_case(case, res):
             if bad:
                 shape = [type(p).__name__ for p in (params.values() if isinstance(params, dict) else params)]
                 res.violation(f'{bad[0]}:{method}', dict(method=method, arity=arity, alpha=case['alpha'],
-                                                         params=json.dumps(params), config=config),
+                                                         params=json.dumps(params), config=config,
+                                                         **({'handshake': case['handshake']}
+                                                            if 'handshake' in case else {})),
                               dict(method=method, params=json.dumps(params)[:300], **bad[1]))
         # differential: what the other client is told afterwards
         got = finish_run(s, other)
@@ -223,7 +226,8 @@ def run_case(case, res):
             res.violation(f'other-client-told-something-else:{method}',
                           dict(method=method, arity=arity, alpha=case['alpha'],
                                by_name=case.get('by_name'), first=case.get('first'),
-                               config=config),
+                               config=config, **({'handshake': case['handshake']}
+                                                 if 'handshake' in case else {})),
                           dict(method=method, differing_item=idx))
         res.count('differential_runs')
         res.distinct('methods', method)
@@ -266,6 +270,16 @@ def cases_for(tier):
         if n:
             cases.append(dict(method=method, arity=min(n, 2), alpha='small' if n <= 2 else 'tiny',
                               by_name=True))
+    # the method table depends on the negotiated protocol version: also with no handshake at
+    # all and with the oldest supported version
+    for method, names in METHODS.items():
+        if method == 'server.version':
+            continue
+        for hs in (None, '1.4'):
+            for arity in range(0, len(names) + 2):
+                a = 'small' if arity <= 2 else 'tiny'
+                if arity <= 3:
+                    cases.append(dict(method=method, arity=arity, alpha=a, handshake=hs))
     # the same requests against a server run with the documented DROP_CLIENT setting
     cases += [dict(c, config='drop') for c in cases if c['method'] == 'server.version']
     return cases
